@@ -316,7 +316,7 @@ def oracle(case, obs, flag_present, opt_tol):
 
     def true_res(Xv):
         tr_ = np.linalg.norm(B - A @ Xv, axis=0) / safe
-        att_ = 1e3 * 2.2e-16 * kap * (anorm2 * np.linalg.norm(Xv, axis=0) + bn) / safe
+        att_ = 1e3 * 2.2e-16 * kap * (anorm2 * (np.linalg.norm(Xv, axis=0) + np.linalg.norm(X0, axis=0)) + bn) / safe      # r0 = b - A x0 is rounded at the scale of x0
         return tr_, att_
     spoiled = flag_present and np.any(X0 != 0)
     # a zero right-hand side with x0 != 0 is iterated on internally (from x0/1e-40) but returned as exactly 0: its loop state is
@@ -336,6 +336,22 @@ def oracle(case, obs, flag_present, opt_tol):
             bad.append("took step %d although after %d steps every column was already below its threshold: residual/||b|| %s vs %s"
                        % (steps, steps - 1, trp.tolist(), tolc.tolist()))
         info["late_stop_checked"] = 1
+    # the reported residual history against the implementation's own iterates: errors has one entry per step, its last two
+    # entries are the tracked (mean over columns, relative to ||b||) residual of the returned iterate, the one before that of
+    # the iterate one step earlier (obtained by re-running with max_iters = steps - 1)
+    if not spoiled and not hidden and len(errs) == steps and steps >= 1 and np.all(np.isfinite(X)):
+        tr, att = true_res(X)
+        nz = bn > 0
+        want = float(np.mean(np.where(nz, tr, 0.0)))
+        allow = 1e-3 * want + float(np.mean(np.where(nz, att, 0.0))) + 1e-300
+        if abs(errs[-1] - want) > allow or (steps >= 2 and errs[-2] != errs[-1]):
+            bad.append("info['errors'][-2:] = %s but the returned iterate has tracked residual %.6e" % (errs[-2:], want))
+        if prev is not None and prev.get("ok") and prev["steps"] == steps - 1 and steps >= 3:
+            trp, attp = true_res(prev["x"])
+            wantp = float(np.mean(np.where(nz, trp, 0.0)))
+            if abs(errs[-3] - wantp) > 1e-3 * wantp + float(np.mean(np.where(nz, attp, 0.0))) + 1e-300:
+                bad.append("info['errors'][-3] = %.6e but the iterate after %d steps has tracked residual %.6e" % (errs[-3], steps - 1, wantp))
+        info["history_checked"] = 1
     # Krylov optimality of the iterate after `steps` steps
     if case.get("check_opt", True) and steps >= 0:
         worst = 0.0
@@ -351,6 +367,14 @@ def oracle(case, obs, flag_present, opt_tol):
             worst = max(worst, d)
             if d > opt_tol:
                 bad.append("column %d: iterate after %d steps is %.3e (A-norm, relative to the initial error) away from the Krylov optimum" % (j, steps, d))
+            # the same distance relative to the error the optimum still has: after many steps the initial error has shrunk by orders
+            # of magnitude and a wrong direction update hides below opt_tol * initial error
+            cur = anorm(A, xs - xo)
+            if case.get("sens_rel", np.inf) <= 1e-6 and cur >= 1e-9 * e0 and cur > 0:
+                dr = anorm(A, X[:, j] - xo) / cur
+                info["opt_dist_rel"] = max(info.get("opt_dist_rel", 0.0), dr)
+                if dr > 1e-3:
+                    bad.append("column %d: iterate after %d steps is %.3e of the remaining optimal error away from the Krylov optimum (A-norm)" % (j, steps, dr))
         info["opt_dist"] = worst
     return bad, info
 
@@ -403,7 +427,7 @@ def stability(case, x0_unscaled=True):
     hi = ref_cg(case["A"], case["Pd"], B, X0, case["tol"], case["max_iters"], np.clongdouble if cplx else np.longdouble, x0_unscaled)
     out = dict(same_steps=lo["steps"] == hi["steps"], steps=lo["steps"], min_margin=min(lo["margins"] + hi["margins"]))
     if not out["same_steps"]:
-        out.update(dev_x=np.inf, dev_r=np.inf, sens_A=np.inf)
+        out.update(dev_x=np.inf, dev_r=np.inf, sens_A=np.inf, sens_rel=np.inf)
         return out
     sc_ = np.max(np.abs(hi["x"]), axis=0)
     sc_ = np.where(sc_ == 0, 1.0, sc_)
@@ -423,4 +447,13 @@ def stability(case, x0_unscaled=True):
             dj = (xl[:, j] - xh[:, j]).astype(A.dtype)
             sens = max(sens, anorm(A, dj) / max(e0, 1e-300))
     out["sens_A"] = sens
+    # and relative to the error that REMAINS after the last step (long runs: the initial error has shrunk by many orders)
+    srel = 0.0
+    for j in range(B.shape[1]):
+        if not np.any(B[:, j]):
+            continue
+        xs = np.linalg.solve(A, B[:, j])
+        cur = anorm(A, xs - np.asarray(hi["x"][:, j], dtype=A.dtype))
+        srel = max(srel, anorm(A, (lo["x"][:, j] - hi["x"][:, j]).astype(A.dtype)) / max(cur, 1e-300))
+    out["sens_rel"] = srel
     return out
